@@ -51,8 +51,13 @@ def run(m: Model, r: Report, tier: str) -> None:
             ast.unparse(pk.args[2]).replace(" ", "") in ("self.ProtocolVersion^255", "self.ProtocolVersion^0xFF", "255^self.ProtocolVersion"),
             "R1", f"{gh.qualname}.pack#inverse-version", f"header packs {[ast.unparse(a) for a in pk.args[1:]]}", loc=gh.loc)
     up = gh.methods["unpack"]
-    chk = [n for n in ast.walk(up.node) if isinstance(n, ast.If) and "inverse" in ast.unparse(n.test) and any(isinstance(s, ast.Raise) for s in n.body)]
-    r.check(len(chk) == 1 and ast.unparse(chk[0].test).replace(" ", "") in ("protocol_version!=inverse_protocol_version^255",), "R1",
+    # roles of the unpacked header fields by their position in the struct format
+    roles = {}
+    for n in walk_no_nested(up.node):
+        if isinstance(n, ast.Assign) and isinstance(n.targets[0], ast.Tuple) and isinstance(n.value, ast.Call) and ast.unparse(n.value.func) == "struct.unpack":
+            roles = {e.id: f"F{i}" for i, e in enumerate(n.targets[0].elts) if isinstance(e, ast.Name)}
+    chk = [n for n in ast.walk(up.node) if isinstance(n, ast.If) and "F1" in m.mtext(up, n.test, roles) and any(isinstance(s, ast.Raise) for s in n.body)]
+    r.check(len(chk) == 1 and m.mtext(up, chk[0].test, roles).replace(" ", "") in ("F0!=F1^255", "F1!=F0^255", "F0^255!=F1", "F1^255!=F0"), "R1",
             f"{gh.qualname}.unpack#inverse-version", "the inverse protocol version check changed", loc=up.loc)
     # announced payload lengths
     sizes = {}
@@ -74,7 +79,7 @@ def run(m: Model, r: Report, tier: str) -> None:
     # ---------------------------------------------------------------- R2
     rf = m.require_function(f"{DOIP}.DoIPConnection._read_frame")
     g = tr.consumption(m, r, "R2", rf, struct.calcsize("!BBHL"))
-    payload_reads = {n.id for n in g.nodes.values() if n.ast is not None and n.kind == "stmt" and "readexactly(hdr.PayloadLength)" in ast.unparse(n.ast)}
+    payload_reads = {n.id for n in g.nodes.values() if n.ast is not None and n.kind == "stmt" and "readexactly(_L.PayloadLength)" in m.mtext(rf, n.ast)}
     rets = {n.id for n in g.nodes.values() if n.kind == "return"}
     ok, path = g.must_pass(g.entry, payload_reads, rets)
     r.check(bool(payload_reads) and ok, "R2", f"{rf.qualname}#payload-consumed",
@@ -116,7 +121,7 @@ def run(m: Model, r: Report, tier: str) -> None:
     # ---------------------------------------------------------------- R5
     ra = m.require_function(f"{DOIP}.DoIPConnection._read_routing_activation_response")
     tests = [n for n in walk_no_nested(ra.node) if isinstance(n, ast.If) and "RoutingActivationResponseCode" in ast.unparse(n.test)]
-    r.check(len(tests) == 1 and ast.unparse(tests[0].test).replace(" ", "") == "payload.RoutingActivationResponseCode!=RoutingActivationResponseCodes.Success"
+    r.check(len(tests) == 1 and m.mtext(ra, tests[0].test).replace(" ", "") == "_L.RoutingActivationResponseCode!=RoutingActivationResponseCodes.Success"
             and isinstance(tests[0].body[0], ast.Raise) and "DoIPRoutingActivationDeniedError" in ast.unparse(tests[0].body[0]),
             "R5", ra.qualname, "the connection must be refused for every response code other than Success", loc=ra.loc)
 
